@@ -237,7 +237,7 @@ def _rows_index(chk, pid, S, fi, host, R, K):
     """C08.R4 append-only: every in-place history write is at the current index."""
     stores = [(e, hist_store(e)) for e in S.events if hist_store(e)]
     fills = [(e, hist_fill(e)) for e in S.events if hist_fill(e)]
-    if pid in ("C08",):
+    if pid in ("C08", "C04"):
         for e, (ser, idx, val, aug) in stores:
             sn = series_name(ser)
             ok = is_inow(idx, guard=e.guard)
@@ -255,7 +255,7 @@ def _rows_case(chk, pid, S, fi, host, R, K, st, gg):
     stores = [(e, hist_store(e)) for e in S.events if hist_store(e)]
     fills = [(e, hist_fill(e)) for e in S.events if hist_fill(e)]
     for field, series, owner in _pairs_for(K, R, chk.prog):
-        attributed = (pid == owner) or (pid == "C17" and field == R.NOTIONAL and NOTL_KIND.get(K) != "value")
+        attributed = (pid == owner) or (pid == "C17" and field == R.NOTIONAL and NOTL_KIND.get(K) != "value") or (pid == "C18" and owner == "C07")
         if not attributed:
             continue
         if NOTL_KIND.get(K) == "zero" and field == R.NOTIONAL:
@@ -351,18 +351,33 @@ def coupon_accrual(chk, pid):
             if all(is_entry(leaf, SELF, R.COUPON) for _, leaf in sym.cases(cfin)):
                 continue
             q = final_value(st, SELF, R.POSITION)
-            # coupon = position * coupon[inow]; 0 when NaN and flat
-            for g, leaf in sym.cases(cfin):
-                gg = lits(tuple(st.guard) + tuple(g))
-                cpn = _row_read(leaf, "_coupons")
-                nanlit = [a for a, p in gg if p and a[0] == "isnan"]
-                if nanlit and canon(leaf) == canon(sym.ZERO):
-                    ok = sym.lit_holds(gg, ("zero", sym._abs_norm(sym.to_rat(q))), True)
-                    chk.ob("C17.R2", ok, fi.module, host, "coupon:nan", "a NaN coupon is tolerated only on a flat position", where=fi.where, found=sym.fmt_guard(g))
-                else:
-                    ok = cpn is not None and equal(leaf, ("*", q, cpn)) and is_inow(cpn[2])
-                    chk.ob("C17.R2", ok, fi.module, host, "coupon:formula", "coupon accrued = position x coupon at the current row", where=fi.where,
-                           expected="position * coupons[inow]", found=short(leaf), sample={"coupon": short(leaf)})
+            # coupon = position * coupon[inow]; 0 when NaN and flat (one scenario per combination; NaN on an open position never reaches a normal exit)
+            cpn_any = _row_read(cfin, "_coupons")
+            if cpn_any is None:
+                for a_, p_ in st.guard:
+                    cpn_any = cpn_any or _row_read(a_, "_coupons")
+            nan_atom = canon(("isnan", cpn_any)) if cpn_any is not None else None
+            zq_ = ("zero", sym._abs_norm(sym.to_rat(q)))
+            for is_nan in (True, False):
+                for flat in (True, False):
+                    scen = ((zq_, flat),) + (((nan_atom, is_nan),) if nan_atom is not None else ())
+                    g0 = sym.sat(tuple(lits(st.guard)) + scen)
+                    if sym.inconsistent(g0):
+                        continue
+                    for g, leaf, raws in sym.split_cases(sym.restrict(cfin, g0), raw=True):
+                        gg = GX(st, tuple(g) + scen, raws)
+                        if sym.inconsistent(gg):
+                            continue
+                        leaf = sym.restrict(leaf, gg)
+                        cpn = _row_read(leaf, "_coupons")
+                        if is_nan:
+                            ok = flat and equal(leaf, sym.ZERO)
+                            chk.ob("C17.R2", ok, fi.module, host, "coupon:nan", "a NaN coupon is tolerated only on a flat position (and then accrues nothing)", where=fi.where,
+                                   found="%s under %s" % (short(leaf), sym.fmt_guard(scen)))
+                        else:
+                            ok = (cpn is not None and equal(leaf, ("*", q, cpn)) and is_inow(cpn[2])) or (flat and equal(leaf, sym.ZERO))  # 0 x coupon is 0
+                            chk.ob("C17.R2", ok, fi.module, host, "coupon:formula", "coupon accrued = position x coupon at the current row", where=fi.where,
+                                   expected="position * coupons[inow]", found=short(leaf), sample={"coupon": short(leaf)})
             # holding cost: one scenario per side of the position and per schedule present / absent
             hfin = final_value(st, SELF, R.HOLDING_COST)
             gt, lt, zq = canon(("cmp", ">", q, sym.ZERO)), canon(("cmp", "<", q, sym.ZERO)), ("zero", sym._abs_norm(sym.to_rat(q)))
@@ -444,6 +459,30 @@ def ref(self, date, data, inow, newpt):
 '''
 
 
+def restrict_sums(v, g):
+    """Resolve, under the literal set g, the filters of the sums inside v: a filter literal that holds is dropped, one that fails empties the sum."""
+    if not isinstance(v, tuple) or not v:
+        return v
+    if v[0] == "sum" and len(v) == 4:
+        keep = []
+        for a, p in v[2]:
+            if sym.lit_holds(g, a, p):
+                continue
+            if sym.lit_holds(g, a, not p):
+                return sym.ZERO
+            keep.append((a, p))
+        return ("sum", restrict_sums(v[1], g), tuple(keep), restrict_sums(v[3], g))
+    if v[0] == "rat":
+        return v
+    return tuple(restrict_sums(x, g) for x in v)
+
+
+def equal_under(v, exp, g):
+    """equal(v, exp) with both sides restricted by the case's literals (phi nodes and sum filters)"""
+    gs = sym.sat(tuple(g))
+    return equal(restrict_sums(sym.restrict(v, gs), gs), restrict_sums(sym.restrict(exp, gs), gs))
+
+
 def _newpt(R):
     now0 = fld(SELF, "now")
     return ("or", ("cmp", "==", now0, sym.ZERO), ("cmp", "!=", DATE, now0))
@@ -485,7 +524,9 @@ def strategy_update(chk, pid):
         for w in vw:
             for g, v in children_cases(w.value):
                 exp = drop_sums(ref_val) if empty_children(g) else ref_val
-                ok = equal(v, exp)
+                if empty_children(g):
+                    v = drop_sums(v)  # the value list is empty exactly when the children dict is (kept together by _add_children): sums over it vanish
+                ok = equal(v, exp) or equal_under(v, exp, g)
                 if pid in ("C01", "C02"):
                     chk.ob("C01.R2", ok, CORE, host, "strategy-value", "a strategy's value is its cash plus the sum of its children's values (plus the coupons swept this step)",
                            where=w.where, expected=short(exp, 300), found=short(v, 300), sample={"value": short(v, 200)})
@@ -496,7 +537,9 @@ def strategy_update(chk, pid):
         wcap = own[-1]
         for g, v in children_cases(wcap.value):
             exp = drop_sums(ref_cap) if empty_children(g) else ref_cap
-            ok = equal(v, exp)
+            if empty_children(g):
+                v = drop_sums(v)
+            ok = equal(v, exp) or equal_under(v, exp, g)
             chk.ob("C02.R3", ok, CORE, host, "sweep-credit", "exactly the securities' parked cash is added to the strategy's cash, once", where=wcap.where,
                    expected=short(exp, 240), found=short(v, 240), sample={"cash_after_sweep": short(v, 200)})
         zeroed = [w for w in S.events if w.kind == "write" and w.field == R.CAPITAL and w.obj[0] == "elem" and canon(w.value) == canon(sym.ZERO)]
@@ -624,9 +667,12 @@ def strategy_update(chk, pid):
         pairs = [(R.LAST_FEE, R.FEES, "C07"), (R.NET_FLOWS, R.FLOWS_ROWS, "C07"), (R.CAPITAL, R.CASH, "C07")]
     elif pid == "C17":
         pairs = [(R.NOTIONAL, R.NOTIONALS, "C17")]
+    elif pid == "C16":
+        # the rows of the bankruptcy date hold the post-liquidation figures (read after the liquidation, not carried over from before it)
+        pairs = [(R.CAPITAL, R.CASH, "C16"), (R.VALUE, R.VALUES, "C16")]
     _strategy_rows(chk, pid, S, fi, host, R, pairs)
     # ---- C03 / C17 index formulas
-    if pid in ("C03", "C17", "C10"):
+    if pid in ("C03", "C17", "C10", "C08"):
         _index_rules(chk, pid, S, fi, host, R)
     # ---- C03.R2 / C08.R1 / C07.R3: snapshot and reset set under the date-change literal
     if pid in ("C03", "C08", "C07", "C17"):
@@ -686,6 +732,26 @@ def _strategy_rows(chk, pid, S, fi, host, R, pairs):
                    where=cands[-1][0].where, expected="unconditional store", found=sym.fmt_guard(cands[-1][0].guard))
 
 
+def zero_known(gg, expr):
+    """True / False when the literal set says is_zero(expr) / not is_zero(expr), else None. Besides the direct look-up, the zero tests in gg are compared with
+    `expr` after both have been restricted by gg (a test made on a value that carries an earlier branch of the function in it)."""
+    try:
+        target = sym._abs_norm(sym.to_rat(sym.restrict(expr, gg)))
+    except Exception:
+        return None
+    for pol in (True, False):
+        if sym.lit_holds(gg, ("zero", target), pol):
+            return pol
+    for a, p in list(gg):
+        if isinstance(a, tuple) and len(a) == 2 and a[0] == "zero":
+            try:
+                if sym._abs_norm(sym.to_rat(sym.restrict(a[1], gg))) == target:
+                    return p
+            except Exception:
+                continue
+    return None
+
+
 def _index_rules(chk, pid, S, fi, host, R):
     fi_atom = canon(fld(SELF, "_fixed_income"))
     pw = [w for w in S.writes(R.PRICE, SELF) if not has_lit(w.guard, fld(SELF, "_paper_trade"), True)]
@@ -706,20 +772,20 @@ def _index_rules(chk, pid, S, fi, host, R):
         base = ("+", lv, nf)
         if not_fi and pid == "C03":
             seen["mv"] += 1
-            for gv, v, raws in sym.split_cases(w.value, raw=True):
+            for gv, v, raws in sym.split_cases(sym.restrict(w.value, sym.sat(tuple(G(w)) + tuple(mode))), limit=12, raw=True):
                 gg = GX(w, tuple(gv) + tuple(mode), raws)
                 if sym.inconsistent(gg):
                     continue
                 rr = lambda x: sym.restrict(x, gg)
                 v, lp, V, base = rr(v), rr(cur(w, SELF, LP)), rr(cur(w, SELF, R.VALUE)), rr(("+", cur(w, SELF, LV), cur(w, SELF, R.NET_FLOWS)))
-                zero_base = sym.lit_holds(gg, ("zero", sym._abs_norm(sym.to_rat(base))), True)
-                nz_base = sym.lit_holds(gg, ("zero", sym._abs_norm(sym.to_rat(base))), False)
+                zb = zero_known(gg, base)
+                zero_base, nz_base = zb is True, zb is False
                 if nz_base:
                     ok = equal(v, ("/", ("*", lp, V), base))
                     exp = "last_price * value / (last_value + net_flows)"
                     key = "index-formula:mv"
                 elif zero_base:
-                    ok = equal(v, lp) and sym.lit_holds(gg, ("zero", sym._abs_norm(sym.to_rat(V))), True)
+                    ok = equal(v, lp) and zero_known(gg, V) is True
                     exp = "last_price (zero return) when base and value are both zero"
                     key = "index-formula:mv-zero-base"
                 else:
@@ -732,7 +798,7 @@ def _index_rules(chk, pid, S, fi, host, R):
             ln, N = cur(w, SELF, LN), cur(w, SELF, R.NOTIONAL)
             pnl = ("-", V, base)
             par = sym.num(chk.prog.const_value(CORE, "PAR") or 100.0)
-            for gv, v, raws in sym.split_cases(w.value, raw=True):
+            for gv, v, raws in sym.split_cases(sym.restrict(w.value, sym.sat(tuple(G(w)) + tuple(mode))), limit=12, raw=True):
                 gg = GX(w, tuple(gv) + tuple(mode), raws)
                 if sym.inconsistent(gg):
                     continue
@@ -740,15 +806,42 @@ def _index_rules(chk, pid, S, fi, host, R):
                 v, lp, V, ln, N = rr(v), rr(cur(w, SELF, LP)), rr(cur(w, SELF, R.VALUE)), rr(cur(w, SELF, LN)), rr(cur(w, SELF, R.NOTIONAL))
                 base = rr(("+", cur(w, SELF, LV), cur(w, SELF, R.NET_FLOWS)))
                 pnl = ("-", V, base)
-                if sym.lit_holds(gg, ("zero", sym._abs_norm(sym.to_rat(ln))), False):
+                if zero_known(gg, ln) is False:
                     ok, exp, key = equal(v, ("+", lp, ("/", ("*", par, pnl), ln))), "last_price + PAR * pnl / last_notional", "index-formula:fi"
-                elif sym.lit_holds(gg, ("zero", sym._abs_norm(sym.to_rat(N))), False):
+                elif zero_known(gg, N) is False:
                     ok, exp, key = equal(v, ("+", lp, ("/", ("*", par, pnl), N))), "last_price + PAR * pnl / notional (fallback)", "index-formula:fi-fallback"
                 else:
-                    ok = equal(v, lp) and sym.lit_holds(gg, ("zero", sym._abs_norm(sym.to_rat(pnl))), True)
+                    ok = equal(v, lp) and zero_known(gg, pnl) is True
                     exp, key = "last_price when notional and pnl are zero", "index-formula:fi-zero"
                 chk.ob("C17.R4", ok, CORE, host, key, "a fixed-income index moves additively by PAR x (change in value net of flows) / notional", where=w.where, expected=exp,
                        found=short(v, 260), sample={"price": short(v, 200)})
+    if pid in ("C08", "C17", "C03"):
+        # the index is recomputed whenever the update records anything: in particular when only the notional moved (the fixed-income fallback divides by it), so that
+        # a redundant update or a read between two trades cannot change the final index
+        wn = [w for w in S.writes(R.NOTIONAL, SELF) if own_event(w, S.fn.qual)]
+        gate = None
+        for w in wn:
+            for a_, p_ in lits(plain(w.guard)):
+                ca_ = canon(a_)
+                if p_ and isinstance(ca_, tuple) and ca_ and ca_[0] == "or" and any(mentions_field(d_, R.NOTIONAL, SELF) for d_ in ca_[1:]):
+                    gate = ca_
+        if gate is not None:
+            scen = []
+            for d_ in gate[1:]:
+                holds = mentions_field(d_, R.NOTIONAL, SELF)
+                if isinstance(d_, tuple) and d_ and d_[0] == "not":
+                    scen.append((d_[1], not holds))
+                else:
+                    scen.append((d_, holds))
+            for mode_fi in (True, False):
+                gs = sym.sat(tuple(scen) + ((fi_atom, mode_fi),))
+                if sym.inconsistent(gs):
+                    continue
+                covered = [w for w in pw if not sym.inconsistent(sym.sat(tuple(gs) + tuple(lits(plain(w.guard)))))]
+                covered += [e for e in S.raises if not sym.inconsistent(sym.sat(tuple(gs) + tuple(lits(plain(e.guard)))))]
+                chk.ob("C08.R2", bool(covered), CORE, host, "index-recomputed-with-the-rows:%s" % ("fi" if mode_fi else "mv"),
+                       "whenever update records new value / notional rows it also recomputes the index - also when only the notional moved", where=fi.where,
+                       expected="a price assignment on the path where only the notional changed", found="no price assignment consistent with that path")
     if pid == "C03":
         chk.ob("C03.R1", seen["mv"] > 0, CORE, host, "index-present:mv", "the market-value index recurrence must be present", where=fi.where)
     if pid == "C17":
@@ -939,8 +1032,17 @@ def _paper_rules(chk, pid, S, fi, host, R):
                     ok = leaf[0] == "fld" and leaf[2] == R.PRICE and leaf[1][0] == "fld" and leaf[1][2] == "_paper"
                     chk.ob("C09.R4", ok, CORE, host, "shadow-price-last-writer", "a sub-strategy's price is its shadow copy's price", where=fi.where, expected="self._paper.price",
                            found=short(leaf), sample={"price": short(leaf)})
-            stores = [(e, hist_store(e)) for e in S.events if hist_store(e) and series_name(hist_store(e)[0]) == R.PRICES and has_lit(e.guard, pt, True)]
-            ok = bool(stores) and equal(stores[-1][1][2], cur(stores[-1][0], SELF, R.PRICE)) and is_inow(stores[-1][1][1])
+            # scenario: the node is a paper-traded sub-strategy. The last price-row store on that path happens on every update and records the shadow's price
+            stores = [(e, hist_store(e)) for e in S.events if hist_store(e) and series_name(hist_store(e)[0]) == R.PRICES
+                      and not sym.inconsistent(sym.sat(tuple(G(e)) + ((pt, True),)))]
+            ok = False
+            if stores:
+                e_, hs_ = max(stores, key=lambda x: x[0].seq)
+                g_ = sym.sat(tuple(G(e_)) + ((pt, True),))
+                v_ = sym.restrict(hs_[2], g_)
+                is_shadow = v_[0] == "fld" and v_[2] == R.PRICE and v_[1][0] == "fld" and v_[1][2] == "_paper"
+                always = not [l for l in lits(plain(e_.guard)) if l != (canon(pt), True) and l != (pt, True)]
+                ok = is_shadow and always and is_inow(hs_[1], guard=e_.guard)
             chk.ob("C09.R4", ok, CORE, host, "shadow-price-row", "the shadow price is also what is recorded in the price row", where=fi.where)
     if pid in ("C09", "C19"):
         pubs = [e for e in S.events if e.kind == "store" and e.base[0] == "attr" and e.base[2] == "loc" and e.base[1][0] == "fld" and e.base[1][2] == "_universe"]
@@ -1781,6 +1883,33 @@ def _update_after_liquidation(chk, pid):
     ww = [e for e in S.events if e.kind == "write" and e.field == R.WEIGHT and e.obj[0] == "elem" and canon(e.value) != canon(sym.ZERO)]
     if not fl:
         return
+    # ... and that re-read refreshes the whole tree (a nested update of the root, which records the post-liquidation value, price and rows):
+    # nothing computed before the liquidation may be recorded after it
+    g_fl = G(fl[0])
+    first_read = None
+    for e in S.events:
+        if (e.kind == "propread" and e.seq > fl[0].seq and isinstance(e.obj, tuple) and e.obj and e.obj[0] == "elem" and e.name in ("value", "notional_value", "weight", "price")
+                and "flatten" not in [q_.split(".")[-1] for q_ in e.chain]
+                and not sym.inconsistent(sym.sat(tuple(g_fl) + tuple(lits(plain(e.guard)))))):
+            first_read = e
+            break
+    if first_read is not None:
+        pt_ = fld(SELF, "_paper_trade")
+        late = []
+        for e in S.events:
+            if e.seq <= first_read.seq or sym.inconsistent(sym.sat(tuple(g_fl) + tuple(lits(plain(e.guard))))) or has_lit(e.guard, pt_, True):
+                continue
+            if e.kind == "write" and e.obj == SELF and e.field in (R.VALUE, R.NOTIONAL, R.PRICE) and own_event(e, S.fn.qual):
+                late.append(e)
+            hs = hist_store(e)
+            if hs and series_name(hs[0]) in (R.VALUES, R.NOTIONALS, R.PRICES) and own_event(e, S.fn.qual):
+                fld_ = {R.VALUES: R.VALUE, R.NOTIONALS: R.NOTIONAL, R.PRICES: R.PRICE}[series_name(hs[0])]
+                if not equal(hs[2], cur(e, SELF, fld_)):  # re-recording the (refreshed) field itself is harmless
+                    late.append(e)
+        chk.ob("C08.R3b", not late, CORE, "StrategyBase.update", "nothing-stale-recorded-after-liquidation",
+               "the first read of a child's value after the liquidation refreshes the whole tree; value, price and their rows must have been recorded before that read - written after it, "
+               "the pre-liquidation totals overwrite the refreshed ones", where=late[0].where if late else S.fn.where,
+               expected="value / price / rows recorded before the children's values are re-read", found="; ".join(e.where for e in late)[:200])
     for w in ww:
         if w.seq < fl[0].seq:
             continue
@@ -2184,13 +2313,49 @@ def ref(self, universe, **kwargs):
 '''
 
 
+HISTORY_COLUMNS = {"price", "value", "notional_value", "cash", "fees", "flows", "bidoffer_paid", "position", "outlay", "bidoffer", "coupon", "holding_cost"}
+
+
+def float_history_tables(chk, pid):
+    """The per-date history tables are float tables: update() writes into them in place, and an integer column silently truncates what is written.
+    Anywhere in core.py, a history column must not start from an integer literal (`{"flows": 0}`, `data["outlay"] = 0`, DataFrame(0, ...))."""
+    n = 0
+    for f in chk.prog.all_functions(modules=(CORE,)):
+        owners = [o.name for o in working_for(chk.prog, f)] or [f.name]
+        if "setup" not in owners and f.name != "setup":
+            continue
+        for node in ast.walk(f.node):
+            bad = None
+            if isinstance(node, ast.Dict):
+                for k_, v_ in zip(node.keys, node.values):
+                    if isinstance(k_, ast.Constant) and k_.value in HISTORY_COLUMNS and isinstance(v_, ast.Constant) and isinstance(v_.value, int) and not isinstance(v_.value, bool):
+                        bad = "%r: %r" % (k_.value, v_.value)
+                n += 1 if any(isinstance(k_, ast.Constant) and k_.value in HISTORY_COLUMNS for k_ in node.keys) else 0
+            elif isinstance(node, ast.Assign) and len(node.targets) == 1 and isinstance(node.targets[0], ast.Subscript):
+                sl = node.targets[0].slice
+                if isinstance(sl, ast.Constant) and sl.value in HISTORY_COLUMNS:
+                    n += 1
+                    if isinstance(node.value, ast.Constant) and isinstance(node.value.value, int) and not isinstance(node.value.value, bool):
+                        bad = "[%r] = %r" % (sl.value, node.value.value)
+            elif isinstance(node, ast.Call) and isinstance(node.func, ast.Attribute) and node.func.attr == "DataFrame":
+                n += 1
+                fill = node.args[0] if node.args else next((k_.value for k_ in node.keywords if k_.arg == "data"), None)
+                if isinstance(fill, ast.Constant) and isinstance(fill.value, int) and not isinstance(fill.value, bool):
+                    bad = "DataFrame(%r, ...)" % fill.value
+            if bad:
+                chk.ob("C02.R6", False, CORE, f.qual, "float-history:%s" % bad, "history columns start from float zeros: update() writes into them in place and an integer column truncates "
+                       "what is written (fractional positions, flows, fees)", where="%s:%d" % (f.module, node.lineno), expected="0.0", found=bad)
+    chk.ob("C02.R6", n >= 3, CORE, "setup", "float-history-sites", "the history tables are created in setup", where=CORE, found="%d creation sites" % n)
+
+
 def security_setup_rules(chk, pid):
+    float_history_tables(chk, pid)
     from .algo_equiv import check_equiv
 
     if pid in ("C01", "C04", "C19", "C07", "C02", "C18"):
         check_equiv(chk, "C01.R8", CORE, "SecurityBase", "setup", SEC_SETUP_REF, "security-setup",
                     "a security binds its own column of the universe as its price series (or an own empty column when the universe has none), its own history columns, and - when bid/offer "
                     "data is supplied - its own column of it, index-checked", limit=14)
-    if pid in ("C17", "C04", "C07"):
+    if pid in ("C17", "C04", "C07", "C10"):
         check_equiv(chk, "C17.R2", CORE, "CouponPayingSecurity", "setup", COUPON_SETUP_REF, "coupon-setup",
                     "a coupon-paying security binds its own coupon column (mandatory, index-checked) and optional long/short holding-cost columns", no_inline=("setup",), limit=14)
